@@ -30,7 +30,7 @@ struct C19 : Property
 	std::vector<std::string> probes() const override
 	{
 		return {"append.exact_fit", "append.one_over", "append.doubling_insufficient", "memset.beyond_end_zero_fill", "memset.ends_at_capacity",
-		        "memset.inside", "sprintbuf.long_output", "refused.int_overflow", "refused.alloc_failure", "append_after_unterminated_memset", "sprintbuf.embedded_nul"};
+		        "memset.inside", "sprintbuf.long_output", "refused.int_overflow", "refused.alloc_failure", "append_after_unterminated_memset", "sprintbuf.embedded_nul", "sprintbuf.argument_aliases_own_text"};
 	}
 	std::map<std::string, int64_t> cfg_defaults() const override { return {}; }
 
@@ -109,7 +109,7 @@ struct C19 : Property
 			}
 			else if (op.kind == "sprintf")
 			{
-				int64_t which = (int64_t)r.below(4);
+				int64_t which = (int64_t)r.below(5);
 				int64_t len = r.chance(1, 3) ? r.range(120, 135) : (r.chance(1, 2) ? r.range(0, 60) : r.range(128, 600));
 				op.a = {which, (int64_t)r.range(-100000, 100000)};
 				op.data = rand_text(r, (size_t)len);
@@ -326,7 +326,7 @@ struct C19 : Property
 			{
 				std::string expect;
 				char num[64];
-				int which = (int)(op.arg(0) % 4);
+				int which = (int)(op.arg(0) % 5);
 				int val = (int)op.arg(1);
 				const std::string &str = op.data;
 				need = old_bpos + (int64_t)str.size() + 1;
@@ -347,6 +347,19 @@ struct C19 : Property
 					snprintf(num, sizeof num, "[%12d]", val);
 					expect = str + num;
 					rc = LIB(sprintbuf(pb, "%s[%12d]", str.c_str(), val));
+				}
+				else if (which == 4 && s.terminated)
+				{
+					// arguments that point into the buffer's own text (legal: the output is formatted aside and appended afterwards);
+					// the text seen by %s is the C-string view of the current contents
+					std::string cur(pb->buf); // up to the first NUL
+					if (cur.size() > 400)
+						cur.resize(0);
+					expect = "<" + cur + "|" + cur + ">" + str;
+					need = old_bpos + (int64_t)expect.size() + 1;
+					covrel = relation(need);
+					rc = cur.empty() && std::string(pb->buf).size() > 400 ? LIB(sprintbuf(pb, "<%s|%s>%s", "", "", str.c_str())) : LIB(sprintbuf(pb, "<%s|%s>%s", pb->buf, pb->buf, str.c_str()));
+					ctx.probe("sprintbuf.argument_aliases_own_text");
 				}
 				else
 				{
